@@ -278,6 +278,11 @@ func (db *SingleBucketBackend) HeadObject(bucketName, objectName string) (*gofak
 	db.lock.Lock()
 	defer db.lock.Unlock()
 
+	if objectInTheWay(db.fs, ".", path.Dir(objectName)) {
+		// The key lies below an object, not below a directory: it was never stored
+		return nil, gofakes3.KeyNotFound(objectName)
+	}
+
 	stat, err := db.fs.Stat(filepath.FromSlash(objectName))
 	if os.IsNotExist(err) {
 		return nil, gofakes3.KeyNotFound(objectName)
@@ -313,6 +318,11 @@ func (db *SingleBucketBackend) GetObject(bucketName, objectName string, rangeReq
 
 	db.lock.Lock()
 	defer db.lock.Unlock()
+
+	if objectInTheWay(db.fs, ".", path.Dir(objectName)) {
+		// The key lies below an object, not below a directory: it was never stored
+		return nil, gofakes3.KeyNotFound(objectName)
+	}
 
 	f, err := db.fs.Open(filepath.FromSlash(objectName))
 	if os.IsNotExist(err) {
@@ -521,6 +531,10 @@ func (db *SingleBucketBackend) deleteObjectLocked(bucketName, objectName string)
 
 	if stat, err := db.fs.Stat(filepath.FromSlash(objectName)); err == nil && stat.IsDir() {
 		// A directory is not an object; the keys below it are not this key:
+		return nil
+	}
+	if objectInTheWay(db.fs, ".", path.Dir(objectName)) {
+		// Nor can a key be stored below an object:
 		return nil
 	}
 
